@@ -331,7 +331,8 @@ struct Plan {
     host_spelling: String,
     h2: bool,
     method: Method,
-    path: String,
+    path: String,     // the path the server must see
+    uri_path: String, // the path as the caller spells it in the URI ("" for the empty-path form)
     query: Option<String>,
     headers: Vec<(String, String)>,
     req_len: usize,
@@ -447,6 +448,10 @@ impl Plan {
         if rng.pct(15) {
             path.push('/');
         }
+        // ~13 % of the requests address the ROOT: path "/" or an EMPTY path (`scheme://authority?query`); the id
+        // then travels in the query string (`rid=<id>`) -- or, for the few root requests without a (non-empty)
+        // query, only in the header and the body prefix.
+        let root_form = if rng.pct(13) { rng.below(20) as i64 } else { -1 };
         let query = match rng.below(20) {
             0..=6 => None,
             7 => Some(String::new()),
@@ -466,6 +471,25 @@ impl Plan {
                 )
             }
         };
+        let mut uri_path = path.clone();
+        let mut query = query;
+        if root_form >= 0 {
+            let with_id = |q: Option<String>| match q {
+                Some(q) if !q.is_empty() => Some(format!("rid={id}&{q}")),
+                _ => Some(format!("rid={id}")),
+            };
+            let (up, q) = match root_form {
+                0..=7 => ("/", with_id(query.clone())),   // /?rid=..
+                8..=14 => ("", with_id(query.clone())),   // scheme://authority?rid=..
+                15..=16 => ("/", None),                   // path only
+                17 => ("", None),                         // scheme://authority
+                18 => ("/", Some(String::new())),         // /?
+                _ => ("", Some(String::new())),           // scheme://authority?
+            };
+            uri_path = up.to_string();
+            path = "/".to_string(); // what a server sees for the root, whichever way it was spelled
+            query = q;
+        }
         let nh = rng.range(0, 5);
         let mut headers = Vec::new();
         for k in 0..nh {
@@ -536,6 +560,7 @@ impl Plan {
             h2,
             method,
             path,
+            uri_path,
             query,
             headers,
             req_len,
@@ -562,7 +587,7 @@ impl Plan {
         if let Some(p) = o.port() {
             s.push_str(&format!(":{p}"));
         }
-        s.push_str(&self.path);
+        s.push_str(&self.uri_path);
         if let Some(q) = &self.query {
             s.push('?');
             s.push_str(q);
@@ -1126,12 +1151,25 @@ async fn handle(ctx: Arc<SrvCtx>, sconn: u32, mut req: Request<hyperdriver::Body
     let cfg = ctx.cfg.clone();
     let o = &cfg.origins[ctx.opos];
     let path = req.uri().path().to_string();
-    let id_path: i64 = path
+    let id_header: i64 = hdr(req.headers(), "x-rid").and_then(|s| s.parse().ok()).unwrap_or(-1);
+    // the id in the request target: `/r/<id>/..`, or `rid=<id>` in the query of a root request; the few root
+    // requests without a non-empty query carry it only in the header (and body prefix)
+    let mut id_path: i64 = path
         .strip_prefix("/r/")
         .map(|s| s.split('/').next().unwrap_or(""))
         .and_then(|s| s.parse().ok())
         .unwrap_or(-1);
-    let id_header: i64 = hdr(req.headers(), "x-rid").and_then(|s| s.parse().ok()).unwrap_or(-1);
+    if id_path < 0 && path == "/" {
+        id_path = match req.uri().query() {
+            Some(q) if !q.is_empty() => q
+                .split('&')
+                .next()
+                .and_then(|kv| kv.strip_prefix("rid="))
+                .and_then(|s| s.parse().ok())
+                .unwrap_or(-1),
+            _ => id_header,
+        };
+    }
     let on_upgrade = if req.headers().contains_key(http::header::UPGRADE) && req.version() != Version::HTTP_2 {
         Some(hyper::upgrade::on(&mut req))
     } else {
